@@ -235,6 +235,7 @@ pub fn ref_apply(entries: &[Entry], idx: isize, m: &Move) -> isize {
             .unwrap_or(n),
         Move::Next => (idx + 1).min(n),
         Move::Prev => (idx - 1).max(-1),
+        Move::ToEnd => n,
     }
 }
 
@@ -357,6 +358,7 @@ pub fn shape(program: &[Move]) -> String {
             Move::Seek(_) => "seek",
             Move::Next => "next",
             Move::Prev => "prev",
+            Move::ToEnd => "to_end",
         };
         match &mut last {
             Some((ln, c)) if *ln == n => *c += 1,
